@@ -623,9 +623,9 @@ pub fn run() {
     ctx.set("traces_validated_against_impl", all.states);
     ctx.set("evaluations", all.states);
     ctx.set("distinct_nontrivial", all.hist.len() as u64 + hang_undefined.len() as u64);
-    ctx.set("rule", "state = real machine after e clock edges into a corpus program (e = 0..run length), x {interrupt just triggered, not} x {Real, Assembly mode}; at each state one (every 7th: three) assembly step(s) on a clone must equal the specification twin clocked edge by edge (whole-Machine equality modulo the mode flag); distinct_nontrivial = distinct step lengths (10-edge buckets) + predicted non-returning opcode cases");
+    ctx.set("rule", "state = real machine after e clock edges into a corpus program (e = 0..run length), x {interrupt just triggered, not} x {Real, Assembly mode}; at each state one (every 7th: three; from the start state: 300) assembly step(s) on a clone must equal the specification twin clocked edge by edge (whole-Machine equality modulo the mode flag); distinct_nontrivial = distinct step lengths (10-edge buckets) + predicted non-returning opcode cases");
     ctx.set("exhaustive", true);
-    ctx.set("bounds", format!("{} corpus programs (all ordered pairs of a 35-instruction alphabet from {} start states, all triples of a {}-instruction alphabet, + 4 supervised programs), every edge 0..70/110/120; termination: all 256 first bytes and 4 x 256 second bytes, first three steps; twin bound 4096 edges with exact state-cycle detection", progs.len(), 3, if quick { 16 } else { 35 }));
+    ctx.set("bounds", format!("{} corpus programs (all ordered pairs of a 35-instruction alphabet from {} start states, all triples of a {}-instruction alphabet, + the programs containing a STOP once more with the continue key pressed as soon as they stop, + 4 supervised programs), every edge 0..70/110/120; termination: all 256 first bytes and 4 x 256 second bytes, first three steps; twin bound 4096 edges with exact state-cycle detection", progs.len(), 3, if quick { 16 } else { 35 }));
     let mut h = Json::obj();
     for (k, v) in &all.hist {
         h.set(&format!("{}-{}", k, k + 9), *v);
